@@ -43,7 +43,15 @@ type replayLet struct {
 const replayMaxLen = 64
 
 func replayObligation(o *Options, res *runResult, ob *Obligation, replayDir, smtDir string) (string, bool) {
+	return replayObligationMode(o, res, ob, replayDir, smtDir, true, "")
+}
+
+// replayObligationMode: with haveModel=false (the solvers gave no counterexample)
+// only a replay template that needs no model values - a fixed probe of the real
+// function - can be run.
+func replayObligationMode(o *Options, res *runResult, ob *Obligation, replayDir, smtDir string, haveModel bool, preface string) (string, bool) {
 	var log strings.Builder
+	log.WriteString(preface)
 	fmt.Fprintf(&log, "%s\nat %s\nsolver: %s\n\n", ob.Desc, ob.Pos, ob.Backend)
 	confirmed := false
 	func() {
@@ -56,7 +64,7 @@ func replayObligation(o *Options, res *runResult, ob *Obligation, replayDir, smt
 			log.WriteString("replay skipped (-no-replay)\n")
 			return
 		}
-		confirmed = doReplay(o, ob, smtDir, &log)
+		confirmed = doReplay(o, ob, smtDir, &log, haveModel)
 	}()
 	if !confirmed {
 		fmt.Fprintf(&log, "\nsolver output (first lines):\n%s\n", trunc(ob.Output, 4000))
@@ -65,7 +73,7 @@ func replayObligation(o *Options, res *runResult, ob *Obligation, replayDir, smt
 	return path, confirmed
 }
 
-func doReplay(o *Options, ob *Obligation, smtDir string, log *strings.Builder) bool {
+func doReplay(o *Options, ob *Obligation, smtDir string, log *strings.Builder, haveModel bool) bool {
 	u := ob.unit
 	if u == nil || u.contract == nil || len(u.contract.Replay) == 0 || u.fn == nil {
 		log.WriteString("no replay template for this function: no-failing-input-found\n")
@@ -102,6 +110,13 @@ func doReplay(o *Options, ob *Obligation, smtDir string, log *strings.Builder) b
 		default:
 			panic("bad replay line: " + t)
 		}
+	}
+	if !haveModel {
+		if len(lets) > 0 {
+			log.WriteString("the solvers gave no model and the replay template needs model values: no-failing-input-found\n")
+			return false
+		}
+		log.WriteString("the solvers gave no model; running the fixed probe of the replay template against the real code\n")
 	}
 	// evaluate the lets in the entry state
 	env := u.envFor(nil, u.entry.clone(), u.entry, nil)
@@ -199,7 +214,13 @@ func doReplay(o *Options, ob *Obligation, smtDir string, log *strings.Builder) b
 			slots = append(slots, slot{il.let.name, k})
 		}
 	}
-	vals, out := modelValues(u.ctx.Query(mark, hyps, ob.Goal, terms), smtDir, "replay2_"+shortName(ob.Unit)+"_"+ob.Name)
+	var vals []string
+	var out string
+	if haveModel {
+		vals, out = modelValues(u.ctx.Query(mark, hyps, ob.Goal, terms), smtDir, "replay2_"+shortName(ob.Unit)+"_"+ob.Name)
+	} else {
+		vals = []string{}
+	}
 	if vals == nil {
 		fmt.Fprintf(log, "the solver produced no model for the replay query:\n%s\n", trunc(out, 600))
 		return false
@@ -214,7 +235,9 @@ func doReplay(o *Options, ob *Obligation, smtDir string, log *strings.Builder) b
 	for _, il := range idxLets {
 		model[il.let.name] = strings.Join(lists[il.let.name], ", ")
 	}
-	fmt.Fprintf(log, "counterexample (model of the failed obligation, entry state):\n")
+	if haveModel {
+		fmt.Fprintf(log, "counterexample (model of the failed obligation, entry state):\n")
+	}
 	for _, n := range sortedKeys(model) {
 		fmt.Fprintf(log, "  %s = %s\n", n, model[n])
 	}
